@@ -1,31 +1,23 @@
 SPECIFICATION Spec
 CONSTANTS
-  NV = 2
+  NV = 3
   StabV = {}
-  NP = 2
-  UseQueue = TRUE
+  NP = 3
+  UseQueue = FALSE
   SkipQueue = FALSE
   Faults = FALSE
-  MaxC = 9
+  MaxC = 40
   RepStatuses = {"SUCCESSFUL", "FAILED"}
   Atomic = TRUE
   ReportFine = FALSE
   AutoApprove = TRUE
-  Opts = {}
-  ReportOnce = TRUE
-  MaxLevel = 10
-  EmitJson = FALSE
+  Opts = {"byp", "wait", "unwait", "nooct"}
+  ReportOnce = FALSE
+  MaxLevel = 100
+  EmitJson = TRUE
   AtomicPush = TRUE
   FixSelect = TRUE
   FixDirect = TRUE
 CONSTRAINT Bound
 VIEW View
-INVARIANT C01_Incl
-INVARIANT C02_AllOrNone
-INVARIANT C05_Select
-INVARIANT C19_Children
-PROPERTY C03_Green
-PROPERTY C08_FF
-PROPERTY C08_Foreign
-PROPERTY C12_Held
 CHECK_DEADLOCK FALSE
